@@ -24,6 +24,8 @@ META = {
 
 HARNESS = os.path.join(V.VERIF, "harness/C17/impl.cc")
 ITYPES = {"i32": (True, 32), "u32": (False, 32), "i64": (True, 64), "u64": (False, 64)}
+NARROW = {"i8": (True, 8), "u8": (False, 8), "i16": (True, 16), "u16": (False, 16)}     # promoted to int inside the templates
+ALLTYPES = dict(ITYPES, **NARROW)
 
 # ------------------------------------------------------------------ float bit helpers
 class Fmt:
@@ -217,6 +219,17 @@ def gen_cmp(ctx, cases, tags):
             cases.append("cmp %s %s %s %s %s" % (f.name, s, f.h(e), f.h(a), f.h(b))); tags.append(tg)
             if i % 5 == 0:      # the swapped pair too (symmetry is then visible in the impl outputs themselves)
                 cases.append("cmp %s %s %s %s %s" % (f.name, s, f.h(e), f.h(b), f.h(a))); tags.append(tg)
+        # aliasing: eq..le(x, x) with both operands the SAME object, every special value incl. NaN / infinities
+        for s_ in "wsa":
+            for e in ev[:4]:
+                for a in sv + [f.inf, f.inf | f.sign, f.nan]:
+                    cases.append("cmp %s %s %s %s %s" % (f.name, s_, f.h(e), f.h(a), f.h(a))); tags.append("cmp/aliased")
+        for s_ in "wsa":
+            for n1 in (0, 1, 2, 3, 5):
+                for _ in range(6):
+                    v = [rng.choice(sv + [f.nan, f.inf]) if rng.random() < 0.5 else rnd_value(f, rng) for _ in range(n1)]
+                    cases.append("vcmp %s %s %s %d %s %d %s" % (f.name, s_, f.h(ev[0]), n1, " ".join(map(f.h, v)), n1, " ".join(map(f.h, v))))
+                    tags.append("vcmp/aliased")
         # vectors
         for i in range(cnt(ctx, f, 400, 6000)):
             s = "wsa"[i % 3]
@@ -243,12 +256,12 @@ def gen_round(ctx, cases, tags):
     for f in FLOATS:
         mach = Fraction(2) ** (1 - f.prec)
         ev = [f.bits(8 * float(mach)), f.bits(1e-6), 0, f.bits(1e-3), f.bits(0.25), f.bits(0.5), f.bits(float(mach)), f.bits(1.0), f.bits(0.01)]
-        bases = [0, 1, 2, 3, 4, 7, 10, 100, 1000, 12345, 2 ** 20, 2 ** 23, 2 ** 24 - 1, 2 ** 24, 2 ** 31 - 1, 2 ** 31, 2 ** 32 - 1, 2 ** 32,
+        bases = [0, 1, 2, 3, 4, 7, 10, 100, 1000, 12345, 2 ** 15 - 1, 2 ** 15, 2 ** 16 - 1, 2 ** 16, 2 ** 20, 2 ** 23, 2 ** 24 - 1, 2 ** 24, 2 ** 31 - 1, 2 ** 31, 2 ** 32 - 1, 2 ** 32,
                  2 ** 52, 2 ** 53, 2 ** 62, 2 ** 63 - 1024, 2 ** 63, 2 ** 64 - 2048, 2 ** 64]
         n = cnt(ctx, f, 4000, 80000)
         for i in range(n):
             op = "round" if i % 2 else "trunc"
-            ity = rng.choice(["i32", "i32", "i64", "u32", "u64"])
+            ity = rng.choice(["i32", "i32", "i64", "u32", "u64"] + (["i16", "u16", "i16"] if f is F64 else []))
             s = rng.choice("wsa"); r = rng.choice("zidu")
             e = rng.choice(ev) if rng.random() < 0.85 else f.bits(rng.random() * 10 ** rng.randint(-8, 0))
             E = f.frac(e)
@@ -277,7 +290,7 @@ def gen_round(ctx, cases, tags):
 
 
 def wrap(t, z):
-    sg, w = ITYPES[t]
+    sg, w = ALLTYPES[t]
     z %= 1 << w
     return z - (1 << w) if sg and z >= 1 << (w - 1) else z
 
@@ -312,7 +325,7 @@ def gen_int(ctx, cases, tags):
         for n in range(-2 if sg else 0, N + 1):
             cases.append("fact %s %d" % (t, n)); tags.append("fact")
             for k in range(-1 if sg else 0, n + 2):
-                if n >= 0 and not crashes_impl("binom", t, n, k):
+                if n >= 0:
                     cases.append("binom %s %d %d" % (t, n, k)); tags.append("binom/exhaustive")
         for m in range(-12 if sg else 0, 13):
             for p in range(-70 if not quick else -12, 71):
@@ -325,18 +338,31 @@ def gen_int(ctx, cases, tags):
             for m in {r - 1, r, r + 1, -(r - 1), -r, -(r + 1)}:
                 if abs(m) >= 2 and (sg or m > 0) and abs(m) <= lim:
                     cases.append("ipow %s %d %d" % (t, m, p)); tags.append("ipow/boundary")
-        # large n, small k (representable results with large factors)
+        # large n, small k or small n-k (representable results with large factors), up to the maximum of the type:
+        # `k > n-k` must not wrap / overflow there (the as-found `2*k > n` did)
         for _ in range(150 if quick else 3000):
             k = rng.randint(0, 6)
-            # n <= lim/2: beyond that `2*k` leaves the type for k near n (signed: UB, unsigned: wraps and the loop runs
-            # ~2^(w-1) times) -- see the note on F-C17-2 in known_findings/C17.json; kept out of the batch because of its run time
-            n = rng.choice([rng.randint(71, 3000), rng.randint(3000, 70000), lim // 2 - 1, lim // 2, lim // 3])
-            n = min(n, lim // 2)
+            n = rng.choice([rng.randint(71, 3000), rng.randint(3000, 70000), lim // 2 - 1, lim // 2, lim // 2 + 1, lim // 3, lim - 1, lim])
             kk = rng.choice([k, n - k])
-            if kk >= 0 and not crashes_impl("binom", t, n, kk):
+            if kk >= 0:
                 cases.append("binom %s %d %d" % (t, n, kk)); tags.append("binom/large-n")
+        for n, k in [(lim, lim), (lim, 0), (lim, 1), (lim, lim - 1), (lim - 1, lim - 1), (lim, 2), (lim // 2 + 1, lim // 2 + 1)]:
+            cases.append("binom %s %d %d" % (t, n, k)); tags.append("binom/large-n")
+        # power at the limits of the type
+        for m, p in [(lim, 1), (lim, 0), (lim, 2), (2, w - 2), (2, w - 1), (2, w)] + ([(-lim - 1, 1), (-1, 199), (-1, 200), (-2, w - 1), (-2, w)] if sg else []):
+            cases.append("ipow %s %d %d" % (t, m, p)); tags.append("ipow/boundary")
         for v in [0, 1, 2, lim, lim - 1] + ([-1, -2, -lim, -lim - 1] if sg else []) + [rng.randint(-lim if sg else 0, lim) for _ in range(20)]:
             cases.append("isign %s %d" % (t, v)); tags.append("isign")
+    for t, (sg, w) in NARROW.items():
+        lim = (1 << (w - 1)) - 1 if sg else (1 << w) - 1
+        for n in range(-2 if sg else 0, 12):
+            cases.append("fact %s %d" % (t, n)); tags.append("fact/narrow")
+        for m in range(-4 if sg else 0, 5):
+            for p in range(-3, 18):
+                if not crashes_impl("ipow", t, m, p):
+                    cases.append("ipow %s %d %d" % (t, m, p)); tags.append("ipow/narrow")
+        for m, p in [(lim, 1), (lim, 2), (2, w - 2), (2, w - 1), (2, w)] + ([(-lim - 1, 1), (-2, w - 1), (-1, 33)] if sg else []):
+            cases.append("ipow %s %d %d" % (t, m, p)); tags.append("ipow/narrow")
     for f in FLOATS:
         for i in range(cnt(ctx, f, 300, 5000)):
             m = rng.choice(special_values(f)) if rng.random() < 0.2 else f.bits(rng.choice([1, -1]) * rng.choice([rng.random() * 3, rng.randint(0, 12), 1 + rng.random() * 1e-3, 10.0, 0.1]))
@@ -531,11 +557,11 @@ def sig_of(case, asfound_obs, impl_obs=None):
             extra = ":ge2^prec"                 # int -> float conversion of lower+1 is no longer exact
         elif t[2][0] == "u" and f.isfin(v) and f.frac(v) < 0:
             extra = ":unsigned-negative"          # `lower--` wraps below 0
-        elif t[2][0] == "u" and f.isfin(v) and f.frac(v) >= (1 << ITYPES[t[2]][1]) - 1:
+        elif t[2][0] == "u" and f.isfin(v) and f.frac(v) >= (1 << ALLTYPES[t[2]][1]) - 1:
             extra = ":unsigned-top"               # `lower+1` wraps above the maximum
-        elif t[2][0] == "i" and f.isfin(v) and f.frac(v) >= (1 << (ITYPES[t[2]][1] - 1)) - 1:
+        elif t[2][0] == "i" and f.isfin(v) and f.frac(v) >= (1 << (ALLTYPES[t[2]][1] - 1)) - 1:
             extra = ":signed-top"                 # `lower+1` overflows above the maximum
-        elif t[2][0] == "i" and f.isfin(v) and f.frac(v) < -(1 << (ITYPES[t[2]][1] - 1)):
+        elif t[2][0] == "i" and f.isfin(v) and f.frac(v) < -(1 << (ALLTYPES[t[2]][1] - 1)):
             extra = ":signed-bottom"              # `lower--` overflows below the minimum
         return "C17:%s:%s%s" % (op, {"z": "towardZero", "i": "towardInf", "d": "downward", "u": "upward"}[t[4]], extra)
     return "C17:%s" % op
